@@ -115,6 +115,9 @@ type sim struct {
 	synthSeq int
 	synth    map[string]bool // cids of synthetic events published so far
 
+	// commit blocks that are in the store but not reachable from any head
+	unattached []*commit
+
 	faultArmed bool
 	faultPanic bool
 
@@ -773,7 +776,10 @@ func (s *sim) execTxn(op Op) *hx.Failure {
 			break
 		}
 	}
-	if op.Commit && (!failed || op.CommitAfterError) {
+	// A transaction one of whose steps failed while a storage fault is armed is always discarded:
+	// committing it would make the partial writes of the failed step durable, which no event can
+	// describe (the caller's protocol violation; what a fault does to a step is C05's subject).
+	if op.Commit && (!failed || (op.CommitAfterError && !s.faultArmed)) {
 		if failed {
 			s.st.label("txn-commit-after-failed-step")
 		}
@@ -889,7 +895,18 @@ func (s *sim) checkpoint(kind string) *hx.Failure {
 	//    see them too, after everything the call published), then the bus sentinel.
 	sentinels := s.publishGQLSentinels()
 	s.syncBus()
-	fresh := s.tr.scan(s.ctx)
+	cands := append(s.unattached, s.tr.scan(s.ctx)...)
+	reach := s.tr.attached(s.ctx)
+	var fresh []*commit
+	s.unattached = nil
+	for _, c := range cands {
+		if reach[c.Cid] {
+			fresh = append(fresh, c)
+		} else {
+			s.unattached = append(s.unattached, c)
+			s.st.label("unattached-block-left-by-failed-step")
+		}
+	}
 
 	newByCid := map[string]*commit{}
 	distinctDocs := map[string]bool{}
@@ -1031,6 +1048,11 @@ func (s *sim) checkEvents(kind string, evs []recEvent, fresh []*commit, newByCid
 		c := newByCid[id]
 		if c == nil {
 			if old := s.tr.blocks[id]; old != nil {
+				for _, u := range s.unattached {
+					if u.Cid == id {
+						return hx.Failf("C20/event/announces-unattached-block", "update event (%s,%s) after %s announces a block that no head reaches", short(e.u.DocID), id, kind)
+					}
+				}
 				if old.Kind == "field" {
 					return hx.Failf("C20/event/not-a-commit", "update event (%s,%s) announces a field-level block", short(e.u.DocID), id)
 				}
@@ -1222,7 +1244,11 @@ func (s *sim) checkGQL(k int, g *gqlSub, items []gqlItem, evs []recEvent, sentin
 		case c.Col != g.spec.Col:
 			foreignDocs[c.DocID]++
 		case c.Deleted:
-			exp = append(exp, expect{c.DocID, c.Cid, true})
+			// a deleted document matches no filter; without a filter a result for the delete
+			// commit is accepted but not required
+			if g.spec.Filter == nil {
+				exp = append(exp, expect{c.DocID, c.Cid, true})
+			}
 		case evalFilter(g.spec.Filter, c.State):
 			exp = append(exp, expect{c.DocID, c.Cid, false})
 		}
